@@ -328,6 +328,10 @@ func Encrypt(pub *PublicKey, data []byte, random io.Reader, mode int) ([]byte, e
 }
 
 func Decrypt(priv *PrivateKey, data []byte, mode int) ([]byte, error) {
+	// 1 format byte, C1 (x1||y1, 64 bytes), C3 (32 bytes) and a non-empty C2
+	if len(data) < 1+64+32+1 {
+		return nil, errors.New("Decrypt: ciphertext too short")
+	}
 	switch mode {
 	case C1C3C2:
 		data = data[1:]
@@ -351,6 +355,9 @@ func Decrypt(priv *PrivateKey, data []byte, mode int) ([]byte, error) {
 	curve := priv.Curve
 	x := new(big.Int).SetBytes(data[:32])
 	y := new(big.Int).SetBytes(data[32:64])
+	if x.Cmp(curve.Params().P) >= 0 || y.Cmp(curve.Params().P) >= 0 || !curve.IsOnCurve(x, y) {
+		return nil, errors.New("Decrypt: C1 is not a point on the curve")
+	}
 	x2, y2 := curve.ScalarMult(x, y, priv.D.Bytes())
 	x2Buf := x2.Bytes()
 	y2Buf := y2.Bytes()
